@@ -229,7 +229,7 @@ func (c *Check) Finish() {
 	}
 	sort.Strings(ks)
 	for _, s := range ks {
-		fmt.Printf("KNOWN-FINDING: property=%s %s (%d cases; witness: %s)\n", c.ID, s, c.knownHit[s], c.known[s].Witness)
+		fmt.Printf("KNOWN-FINDING: property=%s %s (%d cases; witness: %s)\n", c.ID, s, c.knownHit[s], Trunc(strings.ReplaceAll(c.known[s].Witness, "\n", " | "), 260))
 	}
 	var unseen []string
 	for s := range c.known {
